@@ -11,6 +11,7 @@ import os
 import shutil
 import subprocess
 import sys
+import threading
 import time
 from concurrent.futures import ThreadPoolExecutor
 
@@ -54,7 +55,8 @@ VERSION_DEFS = ["-DFOONATHAN_MEMORY=1", "-DFOONATHAN_MEMORY_VERSION_MAJOR=0",
 def _hash_files(paths):
     h = hashlib.sha1()
     for p in sorted(paths):
-        h.update(p.encode())
+        # (paths relative to the tree, so that the same sources in another location share the cache)
+        h.update((os.path.relpath(p, REPO) if p.startswith(REPO + os.sep) else os.path.relpath(p, ROOT)).encode())
         try:
             with open(p, "rb") as f:
                 h.update(f.read())
@@ -87,6 +89,11 @@ def cmake_hash():
     files = _walk(os.path.join(REPO, "cmake")) + [os.path.join(REPO, "CMakeLists.txt"),
                                                   os.path.join(REPO, "src", "CMakeLists.txt")]
     return _hash_files(files)[:16]
+
+
+# at most this many compiler processes at a time in one driver process (each needs up to ~1 GB with the sanitizers on;
+# 128 at once exhausted the 62 GB of this machine)
+_COMPILE_SLOTS = threading.BoundedSemaphore(int(os.environ.get("VERIF_COMPILE_JOBS", "16")))
 
 
 class _Lock:
@@ -201,7 +208,8 @@ def library(cfg, flavour):
 
         def comp(s):
             o = os.path.join(d, "obj", os.path.relpath(s, os.path.join(REPO, "src")).replace("/", "_") + ".o")
-            _run(base + ["-c", s, "-o", o], what="compile " + os.path.relpath(s, REPO))
+            with _COMPILE_SLOTS:
+                _run(base + ["-c", s, "-o", o], what="compile " + os.path.relpath(s, REPO))
             return o
         with ThreadPoolExecutor(max_workers=min(16, len(srcs))) as ex:
             objs = list(ex.map(comp, srcs))
@@ -259,7 +267,8 @@ def harness(name, cfg, flavour, defines=(), link=()):
 
         def comp(s):
             o = exe + "." + os.path.basename(s) + ".o"
-            _run(base + ["-c", s, "-o", o], what="compile harness " + os.path.basename(s) + " [" + cfg + "/" + flavour + "]")
+            with _COMPILE_SLOTS:
+                _run(base + ["-c", s, "-o", o], what="compile harness " + os.path.basename(s) + " [" + cfg + "/" + flavour + "]")
             return o
         with ThreadPoolExecutor(max_workers=8) as ex:
             objs = list(ex.map(comp, srcs))
